@@ -1,18 +1,23 @@
 // C49: rewrite / header / redirect actions vs model Actions.v.
 // input : [1 cmd:B params:LB [host path rawquery]]                mod_rewrite: rule file with one action loaded by
 //                                                                 ReWriteConfLoad, run by ReqReWrite
-//         [2 cmd:B params:LB reqhdr rsphdr]                       mod_header: ActionFileCheck+actionConvert+HeaderActionsDo
+//         [2 cmd:B params:LB reqhdr rsphdr vars]                  mod_header: ActionFileCheck+actionConvert+HeaderActionsDo;
+//                                                                 vars = [[name value]...] = VariableHandlers[name](req) for the
+//                                                                 %names in the value (computed by gen with the same request)
 //                                                                 hdr = [[key [values]] ...] with canonical, distinct keys
 //         [3 cmd:B params:LB [host path rawquery]]                mod_redirect: ActionFileListCheck+redirectActionsDo
 //         [4 cmd:B params:LB [host path rawquery] reqhdr]         bfe_basic/action: json.Unmarshal into action.Action
 //                                                                 (UnmarshalJSON -> ActionFileCheck) + Action.Do
-// output: Err 1 (configuration rejected) | [host path rawquery] | [reqhdr rsphdr] (sorted by key) | [url]
+//         [5 rules [host path rawquery]]                          mod_rewrite: rule file with several rules
+//                                                                 rules = [[match last [[cmd params]...]]...]
+// output: Err 1 (configuration rejected) | [host path rawquery cache] (cache = [] if req.Query is nil else [map]) | [reqhdr rsphdr] (sorted by key) | [url]
 package main
 
 import (
 	"encoding/json"
 	"fmt"
 	"io/ioutil"
+	"net"
 	"net/url"
 	"os"
 	"path/filepath"
@@ -71,41 +76,105 @@ func fromHeader(h bfe_http.Header) hv.Val {
 	return out
 }
 
+// the request all header cases run on (the %variables read these fields)
+func headerReq() *bfe_basic.Request {
+	req := new(bfe_basic.Request)
+	req.HttpRequest = &bfe_http.Request{Method: "GET", Host: "example.org", URL: &url.URL{Path: "/"}, Header: bfe_http.Header{}, Proto: "HTTP/1.1"}
+	req.Session = &bfe_basic.Session{SessionId: "sess-1", Vip: net.IPv4(10, 1, 2, 3)}
+	req.LogId = "log-42"
+	req.Route.ClusterName = "cluster_a"
+	return req
+}
+
+var safeVars = []string{"bfe_request_host", "bfe_log_id", "bfe_vip", "bfe_cluster", "bfe_session_id"}
+
+// oracle rows for the %names occurring in v (longest known name at each position, as splitParam cuts them)
+func varsFor(v string) hv.Val {
+	out := hv.L{}
+	seen := map[string]bool{}
+	for i := 0; i < len(v); i++ {
+		if v[i] != '%' {
+			continue
+		}
+		j := i + 1
+		for j < len(v) && strings.IndexByte("abcdefghijklmnopqrstuvwxyz0123456789_", v[j]) >= 0 {
+			j++
+		}
+		name := v[i+1 : j]
+		if h, ok := mod_header.VariableHandlers[name]; ok && !seen[name] {
+			seen[name] = true
+			out = append(out, hv.L{hv.S(name), hv.S(h(headerReq()))})
+		}
+	}
+	return out
+}
+
+// Host, path, raw query and the parsed query cached on the request
+func stateVal(req *bfe_basic.Request) hv.Val {
+	cache := hv.L{}
+	if req.Query != nil {
+		cache = hv.L{fromHeader(bfe_http.Header(req.Query))}
+	}
+	return hv.L{hv.S(req.HttpRequest.Host), hv.S(req.HttpRequest.URL.Path), hv.S(req.HttpRequest.URL.RawQuery), cache}
+}
+
+type actJSON struct {
+	Cmd    string
+	Params []string
+}
+type ruleJSON struct {
+	Cond    string
+	Actions []actJSON
+	Last    bool
+}
+
+func runRewrite(rules []ruleJSON, u hv.Val) hv.Val {
+	conf := map[string]interface{}{"Version": "v1", "Config": map[string][]ruleJSON{"p": rules}}
+	data, err := json.Marshal(conf)
+	if err != nil {
+		return hv.Err(7)
+	}
+	fn := filepath.Join(tmpDir, fmt.Sprintf("rewrite-%d.data", os.Getpid()))
+	if err := ioutil.WriteFile(fn, data, 0644); err != nil {
+		return hv.Err(8)
+	}
+	rc, err := mod_rewrite.ReWriteConfLoad(fn)
+	if err != nil {
+		return hv.Err(1)
+	}
+	req := mkReq(u)
+	mod_rewrite.ReqReWrite(req, rc.Config["p"])
+	return stateVal(req)
+}
+
 func impl(in hv.Val) hv.Val {
 	top := hv.AsList(in)
 	op := hv.AsInt(top[0])
+	if op == 5 {
+		var rules []ruleJSON
+		for k, rv := range hv.AsList(top[1]) {
+			r := hv.AsList(rv)
+			cond := []string{"default_t()", "default_t() && !(!default_t())"}[k%2]
+			if !hv.AsBool(r[0]) {
+				cond = []string{"!default_t()", "default_t() && !default_t()"}[k%2]
+			}
+			acts := []actJSON{}
+			for _, av := range hv.AsList(r[2]) {
+				a := hv.AsList(av)
+				acts = append(acts, actJSON{hv.AsStr(a[0]), strs(a[1])})
+			}
+			rules = append(rules, ruleJSON{Cond: cond, Actions: acts, Last: hv.AsBool(r[1])})
+		}
+		return runRewrite(rules, top[2])
+	}
 	cmd := hv.AsStr(top[1])
 	params := strs(top[2])
 	switch op {
 	case 1:
-		type act struct {
-			Cmd    string
-			Params []string
-		}
-		type rule struct {
-			Cond    string
-			Actions []act
-			Last    bool
-		}
-		conf := map[string]interface{}{"Version": "v1", "Config": map[string][]rule{"p": {{Cond: "default_t()", Actions: []act{{cmd, params}}, Last: true}}}}
-		data, err := json.Marshal(conf)
-		if err != nil {
-			return hv.Err(7)
-		}
-		fn := filepath.Join(tmpDir, fmt.Sprintf("rewrite-%d.data", os.Getpid()))
-		if err := ioutil.WriteFile(fn, data, 0644); err != nil {
-			return hv.Err(8)
-		}
-		rc, err := mod_rewrite.ReWriteConfLoad(fn)
-		if err != nil {
-			return hv.Err(1)
-		}
-		req := mkReq(top[3])
-		mod_rewrite.ReqReWrite(req, rc.Config["p"])
-		return hv.L{hv.S(req.HttpRequest.Host), hv.S(req.HttpRequest.URL.Path), hv.S(req.HttpRequest.URL.RawQuery)}
+		return runRewrite([]ruleJSON{{Cond: "default_t()", Actions: []actJSON{{cmd, params}}, Last: true}}, top[3])
 	case 2:
-		req := new(bfe_basic.Request)
-		req.HttpRequest = &bfe_http.Request{Method: "GET", Host: "example.org", URL: &url.URL{Path: "/"}, Header: toHeader(top[3])}
+		req := headerReq()
+		req.HttpRequest.Header = toHeader(top[3])
 		req.HttpResponse = &bfe_http.Response{StatusCode: 200, Header: toHeader(top[4])}
 		if err := mod_header.VerifHeaderActionC49(cmd, params, req); err != nil {
 			return hv.Err(1)
@@ -125,8 +194,7 @@ func impl(in hv.Val) hv.Val {
 		if err := ac.Do(req); err != nil {
 			return hv.Err(6)
 		}
-		return hv.L{hv.L{hv.S(req.HttpRequest.Host), hv.S(req.HttpRequest.URL.Path), hv.S(req.HttpRequest.URL.RawQuery)},
-			fromHeader(req.HttpRequest.Header)}
+		return hv.L{stateVal(req), fromHeader(req.HttpRequest.Header)}
 	case 3:
 		req := mkReq(top[3])
 		u, err := mod_redirect.VerifRedirectActionC49(cmd, params, req)
@@ -181,7 +249,7 @@ func genQuery(r *hv.Rng, focus []string) string {
 		case 3:
 			segs = append(segs, r.Pick([]string{"%zz=1", "a=%4", "x;y=1", "=v", "a=b=c", "%", "a%3Db=1", "a%26b=2"}))
 		default:
-			segs = append(segs, encKey(r, k)+"="+r.Pick([]string{"1", "2", "x+y", "%41", "v", "a", "http%3A%2F%2Fe.org%2Fp%3Fq%3D1"}))
+			segs = append(segs, encKey(r, k)+"="+r.Pick([]string{"1", "2", "x+y", "%41", "v", "a", "http%3A%2F%2Fe.org%2Fp%3Fq%3D1", "x=y", "=", "a=1=2"}))
 		}
 	}
 	return strings.Join(segs, "&")
@@ -312,7 +380,28 @@ func genHeader(r *hv.Rng) (string, hv.Val) {
 		params = []string{r.Pick([]string{"SCHEME_SET", "scheme_set", "Scheme_Set", "SCHEME_DEL"}),
 			r.Pick([]string{"Referer", "referer", "LOCATION", "location", "X-A"}), r.Pick([]string{"http", "https", "HTTPS", "ftp"})}
 	default:
-		params = append(params, r.Pick([]string{"bfe", "v 1", "a,b", "x"}))
+		v := r.Pick([]string{"bfe", "v 1", "a,b", "x"})
+		if r.Chance(1, 2) { // value templates: text, %variable, %%escape, unknown / upper-case / cut names, lone %
+			v = ""
+			n := r.Range(1, 4)
+			for j := 0; j < n; j++ {
+				switch r.Intn(10) {
+				case 0, 1, 2:
+					v += "%" + r.Pick(safeVars)
+				case 3:
+					v += r.Pick([]string{"%%", "%%bfe_vip", "%%x%%y"})
+				case 4:
+					v += r.Pick([]string{"%", "%nosuch", "%BFE_VIP", "%bfe_vipx", "%bfe_vi", "%Bfe_log_id", "%bfe_vip%"})
+				case 5:
+					v += "%" + r.Pick(safeVars) + r.Pick([]string{"-", ";", "X", " ", "="})
+				default:
+					v += r.Pick([]string{"id=", "; max-age=3600", "a", "-", "__bsi=", "X"})
+				}
+			}
+			cmd2 := cmd
+			_ = cmd2
+		}
+		params = append(params, v)
 	}
 	class := cmd
 	switch r.Intn(14) {
@@ -330,7 +419,35 @@ func genHeader(r *hv.Rng) (string, hv.Val) {
 		cmd = r.Pick([]string{"req_header_set", "REQ_HEADER", "HEADER_SET", "HOST_SET", "RSP_HEADER_SETX", ""})
 		class = "unknown"
 	}
-	return class, hv.L{hv.I(2), hv.S(cmd), hv.LS(params), genHdr(r), genHdr(r)}
+	vars := hv.Val(hv.L{})
+	if len(params) >= 2 {
+		vars = varsFor(params[1])
+		if strings.Contains(params[1], "%") && class == cmd {
+			class = "template/" + cmd
+		}
+	}
+	reqH, rspH := genHdr(r), genHdr(r)
+	if class == cmd && (strings.HasSuffix(cmd, "RENAME") || strings.HasSuffix(cmd, "DEL") || strings.HasSuffix(cmd, "ADD")) && r.Chance(1, 2) {
+		// aim at fields that exist: RENAME onto / from present fields, DEL / ADD of present fields
+		h := hv.AsList(reqH)
+		if strings.HasPrefix(cmd, "RSP") {
+			h = hv.AsList(rspH)
+		}
+		if len(h) > 0 {
+			for j := range params {
+				if j == 1 && !strings.HasSuffix(cmd, "RENAME") {
+					break
+				}
+				k := hv.AsStr(hv.AsList(h[r.Intn(len(h))])[0])
+				if r.Bool() {
+					k = strings.ToLower(k)
+				}
+				params[j] = k
+			}
+			class = "present/" + cmd
+		}
+	}
+	return class, hv.L{hv.I(2), hv.S(cmd), hv.LS(params), reqH, rspH, vars}
 }
 
 var safePaths = []string{"/", "", "/a", "/a/b.html", "/redirect/x_y-z~1", "/a/b/", "*", "/a b", "/a?b", "/%41", "/a/\xe4\xb8\xad", "/$&+,:;=@",
@@ -399,7 +516,92 @@ func genDirect(r *hv.Rng) (string, hv.Val) {
 	return class, hv.L{hv.I(4), hv.S(caseMix(r, cmd)), hv.LS(params), genURL(r, nil), genHdr(r)}
 }
 
+// rule files with 1-3 rules of 0-4 actions: sequences exercise the interplay of the raw query and the cached
+// parsed query (ADD then DEL/RENAME of the same key, RENAME onto an existing key, DEL then ADD, ...), Last and
+// non-matching rules
+func genRules(r *hv.Rng) (string, hv.Val) {
+	nr := r.Range(1, 3)
+	keys := []string{r.Pick(qkeys), r.Pick(qkeys), "n"}
+	rules := hv.L{}
+	bad := false
+	total := 0
+	for k := 0; k < nr; k++ {
+		na := r.Range(0, 4)
+		if k == 0 && na == 0 {
+			na = 3
+		}
+		acts := hv.L{}
+		for j := 0; j < na; j++ {
+			var cmd string
+			var params []string
+			if r.Chance(3, 4) { // query actions on a small key set
+				cmd = r.Pick([]string{"QUERY_ADD", "QUERY_DEL", "QUERY_RENAME", "QUERY_DEL_ALL_EXCEPT", "QUERY_ADD", "QUERY_RENAME"})
+				switch cmd {
+				case "QUERY_ADD":
+					params = []string{r.Pick(keys), r.Pick([]string{"1", "v", "x+y"})}
+				case "QUERY_RENAME":
+					params = []string{r.Pick(keys), r.Pick(keys)}
+				default:
+					for n := r.Range(1, 2); n > 0; n-- {
+						params = append(params, r.Pick(keys))
+					}
+				}
+			} else {
+				_, v := genRewrite(r)
+				l := v.(hv.L)
+				cmd = hv.AsStr(l[1])
+				params = strs(l[2])
+				if strings.ToUpper(cmd) != cmd || !contains(rewriteCmds, cmd) || !arityOK(cmd, params) {
+					bad = true
+				}
+			}
+			acts = append(acts, hv.L{hv.S(cmd), hv.LS(params)})
+			total++
+		}
+		rules = append(rules, hv.L{hv.Bool(r.Chance(4, 5)), hv.Bool(r.Chance(1, 3)), acts})
+	}
+	class := fmt.Sprintf("seq%d", total)
+	if total > 4 {
+		class = "seq5+"
+	}
+	if bad {
+		class = "seq-maybe-rejected"
+	}
+	return class, hv.L{hv.I(5), rules, genURL(r, keys[:2])}
+}
+
+func contains(xs []string, x string) bool {
+	for _, y := range xs {
+		if x == y {
+			return true
+		}
+	}
+	return false
+}
+
+// label helper only (not a specification): would a loader that follows the documentation accept this?
+func arityOK(cmd string, params []string) bool {
+	for _, p := range params {
+		if p == "" {
+			return false
+		}
+	}
+	switch cmd {
+	case "HOST_SET_FROM_PATH_PREFIX":
+		return len(params) == 0
+	case "HOST_SET", "PATH_SET", "PATH_PREFIX_ADD", "PATH_PREFIX_TRIM":
+		return len(params) == 1
+	case "HOST_SUFFIX_REPLACE", "QUERY_ADD", "QUERY_RENAME":
+		return len(params) == 2
+	}
+	return true
+}
+
 func gen(r *hv.Rng, i int, tier string) (string, hv.Val) {
+	if r.Chance(1, 5) {
+		c, v := genRules(r)
+		return "rules/" + c, v
+	}
 	if r.Chance(1, 7) {
 		c, v := genDirect(r)
 		return "direct/" + c, v
